@@ -78,7 +78,9 @@ def main():
     elif cmd == "all":
         root = os.path.join(VERIF, "seeded")
         bad = 0
-        results = {}
+        only = set(sys.argv[2:])
+        rp = os.path.join(HERE, "seed_results.json")
+        results = json.load(open(rp)) if only and os.path.exists(rp) else {}
         for name in sorted(os.listdir(root)):
             sd = os.path.join(root, name)
             mp = os.path.join(sd, "meta.json")
@@ -88,7 +90,14 @@ def main():
             if meta.get("status") == "superseded":
                 continue
             props = meta.get("checked_by") or [meta["property"]]
+            if only and name not in only:
+                continue
             r = check(sd, props)
+            if "error" in r:
+                print(f"STALE  {name} {r['error'][:150]}", flush=True)
+                results[name] = {"what": meta.get("what"), "caught": False, "error": r["error"][:200]}
+                bad += 1
+                continue
             caught = any(v.get("exit") == 1 for v in r.values() if isinstance(v, dict))
             first = next((l.split("obligation=", 1)[1] for v in r.values() if isinstance(v, dict) for l in v.get("lines", []) if "obligation=" in l), "")
             print(f"{'CAUGHT' if caught else 'MISSED'} {name} " + " ".join(f"{k}:exit={v.get('exit')}" for k, v in r.items()) + f" first={first[:140]}", flush=True)
